@@ -90,3 +90,12 @@ Definition model_text (c : text_case) : res (list string) :=
 
 Definition check_text (c : text_case) : bool :=
   res_eqb strs_eqb (model_text c) (t_expected c).
+
+(* (f) a run that fails in the composition path: the lines left at the end of
+   the partial file *)
+Definition check_partial (c : text_case * list string) : bool :=
+  match composition_written FS (norm_of (fst c)) (fval_of (fst c)) (rend_of (fst c))
+          (t_cards (fst c)) (t_cells (fst c)) with
+  | (l, Some e) => strs_eqb l (snd c) && res_eqb strs_eqb (Err e) (t_expected (fst c))
+  | (l, None) => res_eqb strs_eqb (Ok l) (t_expected (fst c))
+  end.
